@@ -78,7 +78,6 @@ var (
 
 def die(msg):
     sys.stderr.write("overlay/gen.py: " + msg + "\n")
-    print("overlay/gen.py: " + msg)
     sys.exit(1)
 
 
